@@ -35,9 +35,15 @@ KVal(ktab, key) == LET rows == {r \in 1..Len(ktab) : SubSeq(ktab[r], 1, Len(key)
 Filtered(e, i) == [m \in 1..e.E |-> e.f[i][e.sim[m][i] + 1]]                 \* filter i applied to member m's symbol of coordinate i
 Key(e, i) == Filtered(e, i) \o <<e.real[i]>>
 Expected(e) == SumTo([i \in 1..e.D |-> e.w[i] * KVal(e.ktab, Key(e, i))], e.D)
+CountIn(sq, k) == Cardinality({j \in 1..Len(sq) : sq[j] = k})
+AllKeys(e) == [i \in 1..e.D |-> Key(e, i)]
+(* every coordinate whose weight is not zero was evaluated exactly once on its own filtered data; a coordinate of weight zero may be
+   skipped (its term is zero whatever its value); nothing else was evaluated; the order of evaluation is free *)
+CallsOK(e) == \A k \in {e.calls[j] : j \in 1..Len(e.calls)} \cup {Key(e, i) : i \in 1..e.D} :
+                 /\ CountIn(e.calls, k) <= Cardinality({i \in 1..e.D : Key(e, i) = k})
+                 /\ CountIn(e.calls, k) >= Cardinality({i \in 1..e.D : Key(e, i) = k /\ e.w[i] # 0})
 TableOK(e) == /\ e.loss = Expected(e)                                         \* weighted sum of the single-coordinate values
-              /\ Len(e.calls) = e.D
-              /\ \A i \in 1..e.D : e.calls[i] = Key(e, i)                    \* filters on simulated series only, per coordinate, per member
+              /\ CallsOK(e)                                                   \* filters on simulated series only, per coordinate, per member
               /\ e.inputsame
 (* (statesame - the attributes of the loss object are unchanged - is logged for information only: a cache is legitimate as long as no
    result depends on it; dependence on earlier evaluations is decided behaviourally, by `seen` and by the "fresh-object" relations) *)
